@@ -292,7 +292,17 @@ def handle(w, a):
 
 def boot(w, cmd, d, a):
     if cmd in (0x02, 0xA4):
-        return a if w.echo_ok else a[:-1] + b"X"
+        # echo_ok: True, or how the echo is wrong: False (payload damaged), "hdr-cmd" / "hdr-cla"
+        # (payload intact under another command / class byte), "short" (cut)
+        if w.echo_ok is True:
+            return a
+        if w.echo_ok == "hdr-cmd":
+            return bytes([a[0], 0x06]) + a[2:]
+        if w.echo_ok == "hdr-cla":
+            return bytes([0xE0]) + a[1:]
+        if w.echo_ok == "short":
+            return a[:-1]
+        return a[:-1] + b"X"
     if cmd in (0x45, 0xA2):
         return bytes([0x80, cmd, w.retries])
     if cmd == 0x41:
